@@ -157,10 +157,12 @@ Spec == Init /\ [][Next]_vars
 Finished == done = Ops(c)
 
 \* ---------------------------------------------------------------- theorems (TLC: INVARIANTs)
-\* the case is inside the stated domain, and every stale file sits where the cascade has a child to merge
-\* (a stale file whose children have all disappeared is not touched by the code and is outside the property)
+\* the case is inside the stated domain.  Stale files may sit anywhere the walk comes by - with or without a child
+\* beneath them, chains of stale ancestors included: "exists exactly when at least one of its four children exists".
+\* (A tile filter confines the walk to the ancestors of its live leaves; a stale file elsewhere is not part of the
+\* pyramid being cascaded.)
 CaseOK == /\ DomainOK(c)
-          /\ \A p \in c.stale : \E k \in Kids(p) : fin[k].ex
+          /\ c.stale \subseteq Ops(c)
 
 \* C02, main sentence + "identical whether serial or parallel": whatever admissible order the merges ran in,
 \* every completed position holds exactly the display-sentence tile in the format's row order - in every state,
@@ -181,7 +183,7 @@ HasDefined(l) == l \in DOMAIN c.leaves /\ ~AllUndef(c.mode, LeafMatrix(c, l))
 ExistsIffDataBelow == LET def == {l \in DOMAIN c.leaves : HasDefined(l)}
                       IN \A p \in done : pyr[p].ex <=> \E l \in def : InSub(l, p)
 InDomain == Connected(c.mode, fin)
-\* a stale file at a merged position has been replaced (or removed)
+\* a stale file at a merged position has been replaced, or removed when nothing (defined) lies beneath it
 StaleReplaced == \A p \in done \cap c.stale : pyr[p] = Stored(fin[p])
 \* stored tiles above the leaves are never entirely undefined
 NeverStoredUndefined == \A p \in done : pyr[p].ex => ~AllUndef(c.mode, pyr[p].px)
